@@ -59,6 +59,18 @@ public:
     return *this;
   }
 
+  // Integers (e.g. enumerators passed as `int(kind)`) must not decay to the
+  // `bool` overload, which would feed every non-zero value as `true`.
+  CommandSignature& combine(int i) {
+    value = llvm::hash_combine(value, i);
+    return *this;
+  }
+
+  CommandSignature& combine(unsigned i) {
+    value = llvm::hash_combine(value, i);
+    return *this;
+  }
+
   template <typename T>
   CommandSignature& combine(const std::vector<T>& list) {
     for (const auto& v: list) {
